@@ -13,6 +13,14 @@ CHECKS = {
              "static/dynamic/stream paginators and traces recorded on collections up to 20x10 are validated by TLC against the same actions.",
         note="Trusted: TLC, the harness pages (IStaticPage/IPage/IStream implementations), wall-clock grace period of 120 ms with stalled steps skipped.",
         technique="TLA+ spec + TLC exhaustive; behaviour replay into code; TLC trace validation"),
+    "C20": dict(
+        category="model_checking", design_ref="DESIGN.md 5/C20",
+        text="TLC enumerates every history of <=4 calculations (contents of <=3 chunks, ok / fail@k / cancel@k) on one hasher object and checks that "
+             "an emitted digest is the content of its own call; the histories are replayed on real hasher objects of the 6 algorithms (reader, in-memory "
+             "file, OS file; chunk scales around the 32 KiB copy buffer) against reference digests; recorded histories with contents up to 2^20 bytes "
+             "are validated by TLC.",
+        note="Trusted: TLC, fresh instances of the standard/reference hash packages as reference, the scripted reader of the harness.",
+        technique="TLA+ spec + TLC exhaustive; behaviour replay into code; TLC trace validation"),
 }
 
 NOT_APPLICABLE = {}
